@@ -39,7 +39,7 @@ def config(draw, shard=0, nshards=1, max_tracks=4, small_vocab=True):
     cfg = {"num_tracks": draw(st.integers(1, max_tracks))}
     if max_tracks >= 4 and draw(st.integers(0, 11)) == 0:
         cfg["num_tracks"] = draw(st.integers(5, 12))      # two-digit track numbers
-    cfg["ts_range"] = draw(st.sampled_from([None, None, None, None, [1, 16], [2, 12], [4, 20], [1, 24], [8, 8]]))
+    cfg["ts_range"] = draw(st.sampled_from([None, None, None, None, [1, 16], [2, 12], [4, 20], [1, 24], [8, 8], [2, 6], [9, 16]]))
     # resolution the tokeniser computes bar capacities with (None = library default 24); pieces are laid out on
     # bars of 4*ppqn*num/den ticks, so only multiples of 24 keep every capacity a multiple of the rest unit
     cfg["ppqn"] = draw(st.sampled_from([None, None, None, None, None, 24, 48, 96]))
@@ -113,7 +113,7 @@ def bar_plan(draw, max_bars=6, allow_default_first=True, min_bars=1, ppqn=24, ts
 
 
 @st.composite
-def piece(draw, cfg, max_bars=6, max_notes=10, allow_crossing=True, noise=True, min_bars=1):
+def piece(draw, cfg, max_bars=6, max_notes=10, allow_crossing=True, noise=True, min_bars=1, spread=True):
     """A piece that meets exactly the tokeniser's input constraints for cfg:
     {"bars": [[start, length, [num, den]]...], "tracks": [seqspec...], "meta_track": j}
     Track i's notes all carry channel `chan[i]` (arbitrary; tokenise relabels)."""
@@ -129,6 +129,9 @@ def piece(draw, cfg, max_bars=6, max_notes=10, allow_crossing=True, noise=True, 
     crossing = allow_crossing and pad_mode == "full" and draw(st.booleans())
     shape = draw(st.sampled_from(["free", "free", "first-tick-only", "runs", "empty-piece" if nt else "free"]))
     pitch_pool = list(range(lo, hi + 1))
+    # the signature changes either all sit on one track or are spread over the tracks (tokenise takes them from anywhere)
+    ts_spread = spread and nt > 1 and draw(st.integers(0, 2)) == 0
+    ts_owner = [draw(st.integers(0, nt - 1)) for _ in ts_events] if ts_spread else []
     tracks = []
     for i in range(nt):
         chan = draw(st.integers(0, 15))
@@ -179,7 +182,10 @@ def piece(draw, cfg, max_bars=6, max_notes=10, allow_crossing=True, noise=True, 
                 on = b[0] + u * draw(st.integers(0, max(0, (b[1] - 1) // u)))
                 add(draw(st.sampled_from(pitch_pool)), on, draw(st.sampled_from(values)), draw(st.integers(1, 127)))
         notes.sort()
-        meta = [list(e) + [chan] for e in ts_events] if i == meta_track else []
+        if ts_spread:
+            meta = [list(e) + [chan] for k, e in enumerate(ts_events) if ts_owner[k] == i]
+        else:
+            meta = [list(e) + [chan] for e in ts_events] if i == meta_track else []
         last_on = max([n[2] for n in notes], default=None)
         if noise and last_on is not None and draw(st.integers(0, 3)) == 0:
             meta.append(["ks", draw(st.integers(0, last_on)), draw(st.sampled_from(gens.KEYS)), chan])
